@@ -397,9 +397,10 @@ type plotCase struct {
 	Format    string `json:"format,omitempty"`
 	Files     int    `json:"files,omitempty"`
 	Title     string `json:"title,omitempty"`
-	Probe     string `json:"probe,omitempty"`   // regression probe: part of the violation kind
-	Labeler   string `json:"labeler,omitempty"` // "" = ErrorLabeler (default / explicit), "code" = custom Labeler
-	Interim   bool   `json:"interim,omitempty"` // data() is also called half way through the Adds
+	Probe     string `json:"probe,omitempty"`    // regression probe: part of the violation kind
+	Labeler   string `json:"labeler,omitempty"`  // "" = ErrorLabeler (default / explicit), "code" = custom Labeler
+	Interim   bool   `json:"interim,omitempty"`  // data() is also called half way through the Adds
+	BigBody   int    `json:"big_body,omitempty"` // size of the one large response body in the input files
 }
 
 // code: the status code of a generated result.  It is deliberately not a function of the error
@@ -1507,7 +1508,18 @@ func plotStreams(c *run.Ctx, s *kit.Summary, r *kit.Rng) {
 // ---------------------------------------------------------------------------
 // the plot command
 
-func writeResults(path, format string, rs []res) error {
+// bigBodySize: the size of the one captured response body that makes a record exceed 64 KiB
+// (`vegeta attack` keeps bodies by default); in the thorough tier a gob record may exceed 1 MiB.
+func bigBodySize(c *run.Ctx, r *kit.Rng, format string) int {
+	if c.Tier == "thorough" && format == "gob" && r.Chance(0.2) {
+		return 1<<20 + r.Pick(300000)
+	}
+	return 70000 + r.Pick(80000)
+}
+
+// writeResults encodes rs into a result file.  With big > 0 the record in the middle of the file
+// (never the first) carries a body of that many bytes.
+func writeResults(path, format string, rs []res, big int) error {
 	f, err := os.Create(path)
 	if err != nil {
 		return err
@@ -1522,9 +1534,12 @@ func writeResults(path, format string, rs []res) error {
 	default:
 		enc = vegeta.NewEncoder(f)
 	}
-	for _, x := range rs {
+	for i, x := range rs {
 		r := x.result()
 		r.Timestamp = r.Timestamp.UTC()
+		if big > 0 && len(rs) >= 2 && i == max(1, len(rs)/2) {
+			r.Body = bytes.Repeat([]byte("0123456789abcdef"), big/16+1)[:big]
+		}
 		if err := enc.Encode(r); err != nil {
 			return err
 		}
@@ -1762,12 +1777,30 @@ func plotCmdStream(c *run.Ctx, s *kit.Summary, r *kit.Rng) {
 				s.Count("plotcmd:files-run-out-together")
 			}
 			okFiles := true
+			bigPart, bigSize := -1, 0
+			if done%2 == 0 { // one record over 64 KiB in the middle of the longest file
+				for p, part := range parts {
+					if len(part) >= 2 && (bigPart < 0 || len(part) > len(parts[bigPart])) {
+						bigPart = p
+					}
+				}
+				if bigPart >= 0 {
+					bigSize = bigBodySize(c, r, pc.Format)
+					pc.BigBody = bigSize
+					j.pc = pc
+					s.Count("plotcmd:record-over-64KiB:" + pc.Format)
+				}
+			}
 			for p, part := range parts {
 				if len(part) == 0 {
 					continue
 				}
 				fn := filepath.Join(c.Work, fmt.Sprintf("res-%d-%d.%s", done, p, pc.Format))
-				if err := writeResults(fn, pc.Format, part); err != nil {
+				big := 0
+				if p == bigPart {
+					big = bigSize
+				}
+				if err := writeResults(fn, pc.Format, part, big); err != nil {
 					okFiles = false
 				}
 				j.files = append(j.files, fn)
@@ -1912,7 +1945,13 @@ func plotCLIStream(c *run.Ctx, s *kit.Summary, r *kit.Rng) {
 		if variant == 1 {
 			modelParts = [][]res{pc.Results}
 			fn := filepath.Join(c.Work, fmt.Sprintf("cli-%d-in.%s", i, format))
-			if err := writeResults(fn, format, pc.Results); err != nil {
+			big := 0
+			if len(pc.Results) >= 2 {
+				big = bigBodySize(c, r, format)
+				pc.BigBody = big
+				s.Count("plotcli:record-over-64KiB:" + format)
+			}
+			if err := writeResults(fn, format, pc.Results, big); err != nil {
 				s.Skipped["plotcli:write-failed"]++
 				continue
 			}
@@ -1925,12 +1964,26 @@ func plotCLIStream(c *run.Ctx, s *kit.Summary, r *kit.Rng) {
 				q := r.Pick(k)
 				parts[q] = append(parts[q], x)
 			}
+			bigPart := -1
+			if i%2 == 0 {
+				for q, part := range parts {
+					if len(part) >= 2 && (bigPart < 0 || len(part) > len(parts[bigPart])) {
+						bigPart = q
+					}
+				}
+			}
 			for q, part := range parts {
 				if len(part) == 0 {
 					continue
 				}
 				fn := filepath.Join(c.Work, fmt.Sprintf("cli-%d-%d.%s", i, q, format))
-				if err := writeResults(fn, format, part); err != nil {
+				big := 0
+				if q == bigPart {
+					big = bigBodySize(c, r, format)
+					pc.BigBody = big
+					s.Count("plotcli:record-over-64KiB:" + format)
+				}
+				if err := writeResults(fn, format, part, big); err != nil {
 					s.Skipped["plotcli:write-failed"]++
 				}
 				files = append(files, fn)
